@@ -140,7 +140,7 @@ def eval_stage(run, pid, modes, explore=0, explore_mode="", relevant=None):
         run.triage("eval", "Trace_Eval", obs, verdicts, rel, key=eval_key, nontrivial=eval_nontrivial)
     if explore:
         obs = run.replay("eval", explore=explore, mode=explore_mode, name="eval_explore", idbase=base)
-        verdicts = run.validate("Trace_Eval", obs)
+        verdicts = run.validate("Trace_Eval", obs, shard=400, parallel=12, heap="3g")
         run.triage("eval", "Trace_Eval", obs, verdicts, rel, key=eval_key, nontrivial=eval_nontrivial)
 
 
@@ -174,11 +174,13 @@ OBJS, PARTIAL, LAZY, OPT = G + ("objs", 1), G + ("partial", 1), G + ("lazy", 1),
 PARTIAL2 = G + ("partial", 2)
 BI1, BI2 = G + ("builtins", 1), G + ("builtins", 2)
 OVER = G + ("over", 1)
-eval_prop("C01", [OBJS, LAZY, OPT], [OBJS, LAZY, OPT, U1F, U2])
-eval_prop("C02", [PARTIAL, LAZY, OPT], [PARTIAL2, LAZY, OPT, OBJS, U1F, U2])
-eval_prop("C04", [BI1], [BI2, PARTIAL, U1F])
-eval_prop("C05", [U1S, OVER], [U1F, U2, OPT, OBJS, OVER])
-eval_prop("C06", [LAZY, PARTIAL], [LAZY, PARTIAL, U1F, U2])
+SPEC = G + ("specials", 1)      # IEEE corners: NaN, infinities, the two zeros
+# explore: seeded type-directed programs of depth <= 5 from the harness (gen_prog.go), judged by TLC like the others
+eval_prop("C01", [OBJS, LAZY, OPT], [OBJS, LAZY, OPT, U1F, U2], 1200, 40000, "deep")
+eval_prop("C02", [PARTIAL, LAZY, OPT, SPEC], [PARTIAL2, LAZY, OPT, SPEC, OBJS, U1F, U2], 1200, 40000, "deep")
+eval_prop("C04", [BI1], [BI2, PARTIAL, U1F], 0, 20000, "deep")
+eval_prop("C05", [U1S, OVER], [U1F, U2, OPT, OBJS, OVER], 1200, 40000, "deep")
+eval_prop("C06", [LAZY, PARTIAL], [LAZY, PARTIAL, U1F, U2], 1200, 40000, "deep")
 eval_prop("C16", [OPT], [OPT, U1F])
 SAME = G + ("same", 1)
 eval_prop("C18", [SAME], [SAME, BI2, OBJS])
@@ -204,12 +206,13 @@ def vm_stage(run, pid, modes, explore=0):
     for module, cfg, mode, size in modes:
         cases, n = run.generate(module, cfg, mode=mode, size=size, idbase=base)
         base += n
-        obs = run.replay("vm", cases=cases, name="vm_%s_%s" % (mode, size))
-        verdicts = run.validate("Trace_VM", obs, shard=5000)
+        big = mode == "bcbig"
+        obs = run.replay("vm", cases=cases, name="vm_%s_%s" % (mode, size), budget=180000 if big else 20000)
+        verdicts = run.validate("Trace_VM", obs, shard=1 if big else 5000, parallel=4, heap="8g" if big else "5g", timeout=3600)
         run.triage("vm", "Trace_VM", obs, verdicts, rel, key=eval_key, nontrivial=vm_nontrivial)
     if explore:
-        obs = run.replay("vm", explore=explore, name="vm_explore", idbase=base)
-        verdicts = run.validate("Trace_VM", obs, shard=5000)
+        obs = run.replay("vm", explore=explore, mode="deep", name="vm_explore", idbase=base)
+        verdicts = run.validate("Trace_VM", obs, shard=200, parallel=12, heap="3g")
         run.triage("vm", "Trace_VM", obs, verdicts, rel, key=eval_key, nontrivial=vm_nontrivial)
 
 
@@ -229,19 +232,24 @@ def vm_prop(pid, quick_modes, thorough_modes):
     def fn(tier, seed):
         run = Run(pid, tier, seed)
         modes = thorough_modes if tier == "thorough" else quick_modes
-        vm_stage(run, pid, modes)
+        explore = 20000 if tier == "thorough" else 800
+        vm_stage(run, pid, modes, explore=explore)
         if pid == "C03":
             # the four back ends against each other and the specification (values, failures, logs)
             eval_stage(run, pid, [m[:1] + ("Gen_Eval.cfg",) + m[2:] for m in modes], relevant=EVAL_REL["C03"])
-        run.bounds = dict(universes=[dict(root=m[0], mode=m[2], size=m[3]) for m in modes])
+        run.bounds = dict(universes=[dict(root=m[0], mode=m[2], size=m[3]) for m in modes],
+                          explore="%d seeded type-directed programs of depth <= 5" % explore)
         return finish(run, "model_checking", VM_RULE, assumptions=EVAL_ASSUME)
     PROPS[pid] = fn
     REPLAY[pid] = ("vm", "Trace_VM", lambda why: vm_rel(pid, why))
 
 
-vm_prop("C11", [GV + ("bc", 1), GV + ("lazy", 1), GV + ("partial", 1)],
-        [GV + ("bc", 1), GV + ("lazy", 1), GV + ("partial", 2), GV + ("objs", 1), GV + ("opt", 1), GV + ("builtins", 2), GV + ("u1", 2)])
-vm_prop("C03", [GV + ("bc", 1), GV + ("lazy", 1), GV + ("partial", 1), GV + ("over", 1)],
+# bcbig (thorough): conditionals whose jump targets lie at / beyond the 16-bit operand range -- compiled from the tree,
+# not run; TLC checks the jump structure of whatever the compiler accepted
+vm_prop("C11", [GV + ("bc", 1), GV + ("lazy", 1), GV + ("partial", 1), GV + ("bcbig", 1)],
+        [GV + ("bc", 1), GV + ("lazy", 1), GV + ("partial", 2), GV + ("objs", 1), GV + ("opt", 1), GV + ("builtins", 2), GV + ("u1", 2),
+         GV + ("bcbig", 2)])
+vm_prop("C03", [GV + ("bc", 1), GV + ("lazy", 1), GV + ("partial", 1), GV + ("over", 1), GV + ("specials", 1)],
         [GV + ("bc", 1), GV + ("lazy", 1), GV + ("partial", 2), GV + ("over", 1), GV + ("objs", 1), GV + ("builtins", 2), GV + ("u1", 2), GV + ("u2", 1)])
 
 
@@ -373,6 +381,9 @@ def api_prop(pid, quick_modes, thorough_modes):
         run = Run(pid, tier, seed)
         modes = thorough_modes if tier == "thorough" else quick_modes
         api_stage(run, pid, modes)
+        if pid == "C13":
+            # what one compilation learnt about a Go type must not leak into the next one (host values of one Go type)
+            conv_stage(run, pid, rel={"pairsecond", "panic_pair"})
         run.bounds = dict(universes=[dict(root=m[0], mode=m[2], size=m[3]) for m in modes])
         return finish(run, "model_checking", API_RULE, assumptions=["TLC's evaluation of the TLA+ operators is trusted",
                       "wall-clock promptness and process survival are observed by the harness watchdog, not by TLC"])
@@ -401,7 +412,7 @@ def c07(tier, seed):
     api_stage(run, "C07", [GA + ("pairs", 1 if thorough else 0)] + ([GA + ("hist", 3)] if thorough else []))
     # host data of ONE Go type whose yae type depends on the value (nil-ness, interface contents):
     # compiled against one sample, invoked with another -- directly, and after the callable has been used
-    conv_stage(run, "C07", rel={"pairaccept", "paircompile", "pairwarm", "panic_pair"})
+    conv_stage(run, "C07", rel={"pairaccept", "paircompile", "pairwarm", "pairsecond", "panic_pair"})
     run.bounds = dict(pairs="18 compile-time x 42 run-time environment objects x %d sources; struct pairs of one Go type" % (6 if thorough else 2))
     return finish(run, "model_checking", API_RULE, assumptions=["TLC's evaluation of the TLA+ operators is trusted"])
 
